@@ -525,7 +525,7 @@ class DnsRecordTxtValueSpfDirectiveBase(ParsableBase, Serializable):
     @classmethod
     def _parse_ip_network(cls, parser):
         parser.parse_string('separator', ':')
-        parser.parse_string_until_separator_or_end('ip_network', ' ')
+        parser.parse_string_until_separator_or_end('ip_network', ' ', item_class=ipaddress.ip_network)
 
         return parser['ip_network']
 
